@@ -675,6 +675,30 @@ def gen_cut_zero_check(rng, n):
     return out
 
 
+def gen_devid_foreign(rng, n):
+    """C01: the device-id query fails (silence, a Done frame with a wrong check byte, a cut one, a stale ping answer,
+    noise) and what arrives afterwards are complete, valid frames of OTHER commands that happen to carry an id -- the
+    answer to a Get of the product-id register 0x0100, a Set acknowledgement, a ping answer: no Done frame, no id"""
+    out = []
+    for i in range(n):
+        pid = rng.choice([0xA056, 0xA053, 0x0203, 0xA381, rng.below(65536)])
+        fault = [[],
+                 [ev_data(frame(1, le(pid, 2), bad_chk=1 + rng.below(254)))],
+                 [ev_data(done_resp(le(pid, 2))[:3 + rng.below(4)])],
+                 [ev_data(ping_resp())],
+                 [ev_data(bytes(rng.choice(NOISE_ALPHABET) for _ in range(20)))]][i % 5]
+        other = [get_resp(0x0100, [0x00] + le(pid, 2) + [0xFF]),
+                 frame(8, [0x00, 0x01, 0x00, 0x00] + le(pid, 2) + [0xFF]),
+                 get_resp(0x0100, le(pid, 2)),
+                 ping_resp()][(i // 5) % 4]
+        react = [fault] + [chunked(rng, other, 3) for _ in range(9)]
+        calls = [call("devid", 0, rng.choice(["n", "i"]), "ERR")]
+        if i % 2 == 0:   # ... and a typed read of that register afterwards still gets its value
+            calls.append(call("uint", 0x0100, "b", None))
+        out.append(Case("devid-foreign", calls, react=react, cfg=rng.below(4)))
+    return out
+
+
 def gen_big_noise(rng, n):
     """noise longer than the 4096-byte reader buffer before the good frame"""
     out = []
@@ -740,6 +764,7 @@ def generate(tier, seed):
     cases += gen_cut_zero_check(rng, 8 if q else 40)
     cases += gen_async_burst(rng, 60 if q else 300)
     cases += gen_late_flagged(rng, 120 if q else 600)
+    cases += gen_devid_foreign(rng, 40 if q else 200)
     cases += gen_big_noise(rng, 3 if q else 12)
     cases += gen_buffer_boundary(rng, q)
     return cases
